@@ -26,8 +26,9 @@ func main() {
 		repo := fs.String("repo", "/repo", "")
 		out := fs.String("out", "/verif/coq/Extracted", "")
 		jsonOut := fs.String("json", "", "")
+		forID := fs.String("for", "", "property id: enables the facts that are expensive to extract and only that property needs")
 		fs.Parse(os.Args[2:])
-		f, errs := facts.Run(*repo, *out)
+		f, errs := facts.Run(*repo, *out, *forID)
 		f["errors"] = errs
 		data, _ := json.MarshalIndent(f, "", " ")
 		if *jsonOut != "" {
@@ -83,6 +84,14 @@ func main() {
 		if err := res.Write(*out); err != nil {
 			panic(err)
 		}
+	case "oneshot":
+		props.OneShot(os.Args[2], os.Args[3])
+	case "c10load":
+		var seed int64
+		var rounds int
+		fmt.Sscan(os.Args[2], &seed)
+		fmt.Sscan(os.Args[3], &rounds)
+		props.C10Load(seed, rounds)
 	default:
 		fmt.Fprintln(os.Stderr, "unknown subcommand")
 		os.Exit(2)
